@@ -1,6 +1,8 @@
 package rules
 
 import (
+	"sort"
+	"go/token"
 	"go/types"
 
 	"golang.org/x/tools/go/ssa"
@@ -162,6 +164,29 @@ func runC01(c *Ctx) {
 		} else if typeVal != nil {
 			steps = append(steps, step{"message type == ClientPassword ('p')", constEqEdges(typeVal, 'p', true), vcall})
 		}
+		// a well-formed password message holds the password and nothing else: the accept region lies on an edge on
+		// which the rest of the message is empty (in the strategy, or in the helper that reads the message)
+		consumed := msgEmptyEdges(fn)
+		if helperPassword != nil {
+			consumed = nil
+			for _, ci := range core.Calls(fn) {
+				if call, ok := ci.(*ssa.Call); ok && resultOf(call, 0) == helperPassword || ok && resultOf(call, 1) == helperPassword {
+					if h := core.StaticCallee(call); h != nil {
+						hes := msgEmptyEdges(h)
+						allDom := len(hes) > 0
+						for _, r := range returns(h) {
+							if cls := c.Err().Classify(errOperand(r), r.Block()); cls.MayBeNil() && !anyDominates(hes, r.Block()) {
+								allDom = false
+							}
+						}
+						if allDom {
+							consumed = nilEdges(errResultOf(call), true) // established inside the helper on every successful return
+						}
+					}
+				}
+			}
+		}
+		steps = append(steps, step{"password message fully consumed (nothing follows the password)", consumed, vcall})
 		inAccept := func(b *ssa.BasicBlock) (bool, string) {
 			for _, s := range steps {
 				if !anyDominates(s.edges, b) {
@@ -215,7 +240,7 @@ func runC01(c *Ctx) {
 				if errorCode == nil || h == nil {
 					return false
 				}
-				if h == errorCode {
+				if h == errorCode || h == c.errorEmitter() {
 					return true
 				}
 				if depth == 0 || !c.P.InPkg(h, "wire") || len(h.Blocks) == 0 {
@@ -247,7 +272,25 @@ func runC01(c *Ctx) {
 				if !re.dominates(ci.Block()) {
 					continue
 				}
-				if core.StaticCallee(ci) == errorCode {
+				// the rejection is an ErrorResponse and nothing that belongs to the authenticated phase: in particular no
+				// ReadyForQuery tells the unauthenticated client that the server is ready
+				if callee := core.StaticCallee(ci); callee != nil {
+					er := &emitSetRule{msgs: map[string]ssa.Instruction{}}
+					tc := newTraceClient(c, er)
+					ts := core.NewTS(c.P, tc)
+					ts.Relevant = c.reachesEvents()
+					ts.Run(callee, joinState("", ""), core.TSEnv{})
+					var extra []string
+					for m := range er.msgs {
+						if m != "E" {
+							extra = append(extra, m)
+						}
+					}
+					sort.Strings(extra)
+					_, hasE := er.msgs["E"]
+					R.Check(hasE && len(extra) == 0, "C01.R2", fk+":reject-reply-is-ErrorResponse-only:"+callDescr(ci), c.at(ci), "a rejected login is answered with an ErrorResponse and nothing else (no AuthenticationOk, ParameterStatus or ReadyForQuery reaches a client that was not accepted)", "the reporting call emits E only", sprintf("the call that reports the rejection emits ErrorResponse: %v, and also %v: an unauthenticated client is sent messages of the authenticated phase (ReadyForQuery) before the connection closes", hasE, extra))
+				}
+				if core.StaticCallee(ci) == errorCode || core.StaticCallee(ci) == c.errorEmitter() {
 					ecSites = append(ecSites, ci)
 					continue
 				}
@@ -258,7 +301,7 @@ func runC01(c *Ctx) {
 						return
 					}
 					for _, inner := range core.Calls(h) {
-						if core.StaticCallee(inner) == errorCode {
+						if core.StaticCallee(inner) == errorCode || core.StaticCallee(inner) == c.errorEmitter() {
 							ecSites = append(ecSites, inner)
 						} else if callee := core.StaticCallee(inner); callee != nil && c.P.InPkg(callee, "wire") {
 							collect(callee, depth-1)
@@ -628,4 +671,40 @@ func (c *Ctx) readsPasswordMessage(h *ssa.Function, fk string) (bool, int) {
 		}
 	}
 	return true, strIdx
+}
+
+// msgEmptyEdges: the edges of fn on which the rest of the current message is empty (len(reader.Msg) == 0).
+func msgEmptyEdges(fn *ssa.Function) []edge {
+	var out []edge
+	for _, b := range fn.Blocks {
+		for _, in := range b.Instrs {
+			cmp, ok := in.(*ssa.BinOp)
+			if !ok {
+				continue
+			}
+			x, isLen := core.IsLenOf(cmp.X)
+			if !isLen {
+				continue
+			}
+			if fr, ok := core.FieldOfValue(x); !ok || !fr.Is(pkBuffer, "Reader", "Msg") {
+				continue
+			}
+			if k, isK := core.ConstInt(cmp.Y); !isK || k != 0 {
+				continue
+			}
+			for _, u := range core.Referrers(cmp) {
+				iff, isIf := u.(*ssa.If)
+				if !isIf {
+					continue
+				}
+				switch cmp.Op {
+				case token.EQL:
+					out = append(out, edge{iff.Block(), 0})
+				case token.NEQ, token.GTR:
+					out = append(out, edge{iff.Block(), 1})
+				}
+			}
+		}
+	}
+	return out
 }
